@@ -1,6 +1,7 @@
 """C20 — tags and subsystems compare, hash and parse by protocol name (DESIGN.md §4/C20)."""
 from .. import charset, tables
 from ..callgraph import norm
+from .. import inline
 from ..common import callee_names, body_by_name, family
 from ..facts import callee, const_str, op_const, op_local, op_place
 from ..flow import Flow, identity_through
@@ -102,6 +103,12 @@ def key_function_rule(rep, prog, cfg, type_name, as_str_name, trait, method, cmp
         rep.fail(rule, inst, where, "%s for %s is derived: it compares/hashes the enum structurally, a "
                  "catch-all value would differ from the named variant of the same name" % (trait, type_name))
         return
+    if allow_delegate is None:
+        # private helpers of the module (`fn cmp_name(&self, name: &str) -> Ordering`) and the type's own comparison impls an
+        # impl is written in terms of (`self.cmp(other) == Equal`) are part of the impl
+        own_impls = {norm(x.name) for x in prog.bodies.values() if x.kind == "AssocFn" and norm(x.name).startswith("<%s as core::cmp::" % type_name)}
+        base = inline.module_private_helpers(b, exclude=(as_str_name,))
+        b = inline.inlined(prog, b, lambda cb: base(cb) or (norm(cb.name) in own_impls and cb.id != bodies[0].id and not cb.raw.get("derived")), depth=3)
     fl = Flow(b)
     problems = []
     params = list(range(1, 1 + self_params))
@@ -148,6 +155,25 @@ def key_function_rule(rep, prog, cfg, type_name, as_str_name, trait, method, cmp
             problems.append("parameter _%d never goes through as_str" % p)
     # the result / hashed value derives from the comparison of as_str results
     cmp_calls = [(bb, t) for bb, t in b.calls() if any(n in cmp_names for n in callee_names(t))]
+    via_order = None
+    if method == "eq" and len(cmp_calls) == 1 and any("core::cmp::Ordering as core::cmp::PartialEq" in n for n in callee_names(cmp_calls[0][1])):
+        # `a.cmp(b) == Ordering::Equal`: equality read off the order of the names — the comparison is the one `cmp` call whose
+        # result is tested against `Equal`
+        ebb, et = cmp_calls[0]
+        sides = []
+        for a in et["args"]:
+            lv, _ = fl.sources([op_local(a)], through_call=lambda t2, k=None: None)
+            sides.append(lv)
+        is_equal = lambda lv: any(x[0] == "agg" and b.blocks[x[1]]["s"][x[2]]["rv"].get("variant") == "Equal" for x in lv) and \
+            not any(x[0] in ("call", "param") for x in lv)
+        ord_calls = lambda lv: [x[1] for x in lv if x[0] == "call" and any(n == "core::cmp::Ord::cmp" for n in callee_names(b.blocks[x[1]]["t"]))]
+        for i in (0, 1):
+            if is_equal(sides[1 - i]) and len(ord_calls(sides[i])) == 1 and not any(x[0] == "param" for x in sides[i]):
+                via_order = ebb
+                cbb = ord_calls(sides[i])[0]
+                cmp_calls = [(cbb, b.blocks[cbb]["t"])]
+        if via_order is None:
+            problems.append("the equality of two Ordering values is not `names.cmp() == Equal`")
     if allow_delegate is None:
         if len(cmp_calls) != 1:
             problems.append("expected exactly one %s call, found %d" % ("/".join(sorted(cmp_names)), len(cmp_calls)))
@@ -182,6 +208,8 @@ def key_function_rule(rep, prog, cfg, type_name, as_str_name, trait, method, cmp
                         return (0,)
                     return identity_through(t2, kind)
                 leaves, _ = fl.sources([0], through_call=thr)
+                if via_order is not None:
+                    leaves = {("call", bb)} if ("call", via_order) in leaves else set()
                 if ("call", bb) not in leaves:
                     problems.append("the result does not derive from the comparison of the names")
     if allow_delegate is not None:
